@@ -32,9 +32,9 @@ ASSUMPTIONS = ["pv/cexpr.py is the semantics of the emitted C text (self-tested 
                "floating point modelled as reals (real mode)"]
 RULE = "one item per (skeleton, mode) / mapper history; non-trivial = C text parsed and compared on >= 1 path"
 
-INT_KINDS = (["sum2", "sum3", "prod2", "prod3", "floordiv", "rem", "pow", "neg"] + skel.BITS + skel.LOGIC + skel.CMPS
+INT_KINDS = (["sum2", "sum3", "prod2", "prod3", "floordiv", "rem", "pow", "pow2", "pow1", "pow0", "neg"] + skel.BITS + skel.LOGIC + skel.CMPS
              + ["if", "call1", "call2", "sub1", "sub2", "cse", "cse_pfx"])
-REAL_KINDS = ["sum2", "sum3", "prod2", "prod3", "quot", "pow", "neg", "cse"]
+REAL_KINDS = ["sum2", "sum3", "prod2", "prod3", "quot", "pow", "pow2", "pow1", "pow0", "neg", "cse"]
 D3 = ["sum2", "prod2", "floordiv", "rem", "neg", "cse", "if", "band2"]
 BOOLISH = set(skel.LOGIC + skel.CMPS)
 
